@@ -386,9 +386,9 @@ def run(tier, seed, replay=None):
     def sig_of(o):
         return "oracle:" + o.split(":", 1)[1].split(",")[0]
 
-    def shrink_ops(case, still):
+    def shrink_ops(case, still, rounds=80):
         worlds, heads, ops = parse_case(case)
-        small = vf.shrink_list(ops, lambda cand: still(render_case(worlds, heads, cand)), max_rounds=60) if len(ops) <= 60 else ops
+        small = vf.shrink_list(ops, lambda cand: still(render_case(worlds, heads, cand)), max_rounds=rounds) if len(ops) <= 80 else ops
         return render_case(worlds, heads, small)
 
     seen = set()
@@ -397,15 +397,18 @@ def run(tier, seed, replay=None):
             seen.add(sig_of(o))
             want = sig_of(o)
             def still(c):
-                _, _, oo, _ = both("c09shrink", [c], bins)
-                return oo[0] != "ok" and sig_of(oo[0]) == want
+                # the oracle needs the implementation only: no model run while shrinking
+                rc, out = vf.run_bin(bins["c09"], vf.write_cases("c09shrink", [c]))
+                ls = [l for l in out.splitlines() if l.startswith("ids=")]
+                oo = ls[0].split(" oracle=")[1].split()[0] if ls and " oracle=" in ls[0] else "ok"
+                return oo != "ok" and sig_of(oo) == want
             small = shrink_ops(cases[i], still)
             r.violation(want, f"implementation oracle failed: {o}", {"case": small, "oracle": o, "original": cases[i]})
-    for i in bad[:2]:
+    for i in bad[:1]:
         def still(c):
             a, b, _, _ = both("c09shrink", [c], bins)
             return a != b
-        small = shrink_ops(cases[i], still)
+        small = shrink_ops(cases[i], still, rounds=12)
         a, b, o, _ = both("c09shrink", [small], bins)
         r.is_broken("correspondence", f"model and implementation differ on: {small}\n impl : {a[0]}\n model: {b[0]}")
         if o[0] != "ok":
